@@ -84,7 +84,7 @@ pub fn use_ladder(lower: bool) -> Vec<(Program, Vec<V>)> {
     let (p1, p2, pprog) = if lower { ("p1", "p2", "pprog") } else { ("P1", "P2", "PPROG") };
     let v = |n: &str| Expr::Var(n.to_string());
     let pv = |n: &str| Pat::Var(n.to_string());
-    let nwrap = 14;
+    let nwrap = 16;
     let wrap = |k: usize, e: Expr, ctr: &mut usize| -> Expr {
         *ctr += 1;
         let (l, m) = (format!("L{}", *ctr * 2), format!("L{}", *ctr * 2 + 1));
@@ -105,7 +105,12 @@ pub fn use_ladder(lower: bool) -> Vec<(Program, Vec<V>)> {
             11 => Expr::Apply(Box::new(Expr::Prim(3, vec![v(p1), v(pprog), v(pprog)])), Box::new(Expr::List(vec![e]))),
             // an inline function whose body hands its parameter to a function, and one whose body has an if on it
             12 => Expr::Call("inl3".into(), vec![e], None),
-            _ => Expr::Call("inl4".into(), vec![e, v(p1)], None),
+            13 => Expr::Call("inl4".into(), vec![e, v(p1)], None),
+            // a lambda with two captures of which the first is a constant at compile time, applied in place ...
+            14 => Expr::Let(false, vec![(m.clone(), Expr::Lit(V::int(2))), (l.clone(), e)],
+                Box::new(Expr::Apply(Box::new(Expr::Lambda(vec![m.clone(), l.clone()], Pat::list(vec![pv("ZC")], Pat::Nil), Box::new(Expr::List(vec![v(&m), v(&l), v("ZC")])))), Box::new(Expr::List(vec![Expr::Lit(V::int(1))]))))),
+            // ... and the same inside a function called with the constant
+            _ => Expr::Call("capf".into(), vec![Expr::Lit(V::int(2)), e, Expr::Lit(V::int(1))], None),
         }
     };
     // binder around, construct inside: the bound name (not the expression) goes through the inner construct
@@ -126,6 +131,8 @@ pub fn use_ladder(lower: bool) -> Vec<(Program, Vec<V>)> {
         Helper::Defun { name: "fun2".into(), pat: Pat::list(vec![pv("B")], Pat::Nil), body: v("B"), inline: false },
         Helper::Defun { name: "inl3".into(), pat: Pat::list(vec![pv("C")], Pat::Nil), body: Expr::Call("fun2".into(), vec![v("C")], None), inline: true },
         Helper::Defun { name: "inl4".into(), pat: Pat::list(vec![pv("D"), pv("E")], Pat::Nil), body: Expr::If(Box::new(v("E")), Box::new(v("D")), Box::new(Expr::Lit(V::int(0)))), inline: true },
+        Helper::Defun { name: "capf".into(), pat: Pat::list(vec![pv("CK"), pv("CV"), pv("CY")], Pat::Nil),
+            body: Expr::Apply(Box::new(Expr::Lambda(vec!["CK".into(), "CV".into()], Pat::list(vec![pv("CZ")], Pat::Nil), Box::new(Expr::List(vec![v("CK"), v("CV"), v("CZ")])))), Box::new(Expr::List(vec![v("CY")]))), inline: false },
     ];
     let args = Pat::list(vec![pv(p1), pv(p2), pv(pprog)], Pat::Nil);
     let two = V::int(2);
@@ -136,8 +143,41 @@ pub fn use_ladder(lower: bool) -> Vec<(Program, Vec<V>)> {
             let mut ctr = 0;
             let inner = wrap(a, v(p2), &mut ctr);
             let e = if b == nwrap { inner } else { wrap(b, inner, &mut ctr) };
-            let uses_helpers = [a, b].iter().any(|k| matches!(*k, 3 | 4 | 10 | 12 | 13));
+            let uses_helpers = [a, b].iter().any(|k| matches!(*k, 3 | 4 | 10 | 12 | 13 | 15));
             out.push((Program { args: args.clone(), helpers: if uses_helpers { helpers.clone() } else { vec![] }, body: Expr::Prim(4, vec![v(p1), e]) }, envs.clone()));
+        }
+    }
+    // chains of three and four dependent binders (let*, nested lets, an assign, a mix) whose last name goes through an if:
+    // whatever is compiled apart for the branch needs every name of the chain, not only the nearest
+    for len in [3usize, 4] {
+        for kind in 0..4usize {
+            for b in [7usize, 8, 13, 0] {
+                let names: Vec<String> = (1..=len).map(|i| format!("C{}", kind * 10 + i)).collect();
+                // C1 = (c p2 ()), C(i+1) = (c Ci ()) .. the last ones take it apart again: total for every p2
+                let step = |i: usize, prev: Expr| if i < 2 { Expr::Prim(4, vec![prev, Expr::Lit(V::nil())]) } else { Expr::Prim(5, vec![prev]) };
+                let mut vals = vec![];
+                let mut prev = v(p2);
+                for (i, n) in names.iter().enumerate() {
+                    vals.push((n.clone(), step(i, prev)));
+                    prev = v(n);
+                }
+                let mut ctr2 = 70;
+                let body = wrap(b, v(&names[len - 1]), &mut ctr2);
+                let e = match kind {
+                    0 => Expr::Let(true, vals, Box::new(body)),
+                    1 => vals.into_iter().rev().fold(body, |acc, (n, x)| Expr::Let(false, vec![(n, x)], Box::new(acc))),
+                    2 => Expr::Assign(vals.into_iter().map(|(n, x)| (Pat::Var(n), x)).collect(), Box::new(body)),
+                    _ => {
+                        let mut it = vals.into_iter();
+                        let first = it.next().unwrap();
+                        let rest: Vec<(String, Expr)> = it.collect();
+                        Expr::Let(false, vec![first], Box::new(Expr::Assign(rest[..1].iter().map(|(n, x)| (Pat::Var(n.clone()), x.clone())).collect(),
+                            Box::new(Expr::Let(true, rest[1..].to_vec(), Box::new(body))))))
+                    }
+                };
+                let uses_helpers = matches!(b, 13);
+                out.push((Program { args: args.clone(), helpers: if uses_helpers { helpers.clone() } else { vec![] }, body: Expr::Prim(4, vec![v(p1), e]) }, envs.clone()));
+            }
         }
     }
     for a in 0..5 {
@@ -147,7 +187,7 @@ pub fn use_ladder(lower: bool) -> Vec<(Program, Vec<V>)> {
             let inner = |x: Expr| wrap(b, x, &mut ctr2.clone());
             let e = bind_around(a, v(p2), &inner, &mut ctr);
             ctr2 += 1;
-            let uses_helpers = matches!(b, 3 | 4 | 10 | 12 | 13);
+            let uses_helpers = matches!(b, 3 | 4 | 10 | 12 | 13 | 15);
             out.push((Program { args: args.clone(), helpers: if uses_helpers { helpers.clone() } else { vec![] }, body: Expr::Prim(4, vec![v(p1), e]) }, envs.clone()));
         }
     }
